@@ -410,7 +410,7 @@ Definition out_append (out : list str) (it : item) : list str :=
     let out2 :=
       if str_eqb val [125] && pref_indentClosingBrace && negb (is_nil pref_lineSeparator)
       then (pref_indent ++ val) :: out1
-      else val :: (if ends_with s_space val then remove_last_if_S out1 else out1) in
+      else val :: (if ends_with s_space val && negb (ends_with [92; 32] val) then remove_last_if_S out1 else out1) in
     if is_infix val s_combs then
       match out2 with
       | x :: r => pref_selectorCombinatorSpacer :: x :: pref_selectorCombinatorSpacer :: r
